@@ -61,6 +61,47 @@ def gpsd_leftover_case(res):
                           GPSD_FINDING if backend == 'gpsd' else 'C06|late-truncated|' + backend)
 
 
+def markers_ahead_cases(res, seed, n):
+    """props/C06c.v on the implementation: m checksum-failed frames and then the correct answer, all in ONE read (or byte by
+    byte), with at least m further receive calls fitting into the period: the answer is returned after one send. Compared
+    with the model; oracle on the implementation."""
+    from .. import reflect as R
+    from ..common import Case
+    rng = C.rng_for(seed, 'C06-markers')
+    kt = R.key_tables()
+    sk = ','.join(str(k) for k in kt['signed']) or '-'
+    reqs = [r for r in S.all_requests(rng, R.message_table(), kt) if r.op in ('set', 'mga') or (r.op == 'poll' and r.cid[0] != 6)]
+    out = []
+    proj = RC.proj_for('C06')
+    for k_ in range(n):
+        rq = rng.choice(reqs)
+        frames, _i = S.good_answer(rng, rq, kt, 'ack')
+        m = rng.choice([1, 2, 3, 5])
+        bad = b''
+        for _ in range(m):
+            f = bytearray(G.frame(rng.choice([1, 5, 6, 10]), rng.randrange(8), bytes(rng.getrandbits(8) for _ in range(rng.randrange(0, 9)))))
+            f[-1] ^= rng.choice([0x01, 0x80, 0xFF])
+            bad += bytes(f)
+        data = bad + b''.join(frames)
+        idle = rng.choice([3, 13, 50])
+        delay = (m + 2) * idle + rng.choice([5, 40, 400])
+        evs = [(data, 1)] if k_ % 2 == 0 else [(data[j:j + 1], 0) for j in range(len(data))]
+        backend = 'tty' if k_ % 2 else 'stub'
+        sc = {'retries': rng.choice([0, 2]), 'delay': delay, 'reqs': [rq], 'plan': [('good', 1, False)], 'plans': [[('good', 1, False)]],
+              'script': {'pending': [], 'attempts': [(True, evs)], 'idle': idle}}
+        if backend == 'tty':
+            sc = dict(sc, backend='tty', bauds=(115200, None))
+        res_ = S.run_scenario(sc)
+        r = S.parse_result(res_)
+        desc = S.describe(sc)
+        desc['markers_ahead_of_answer'] = m
+        if r['ret'] in ('ret=None', 'hang') or r['ret'].startswith('exn=') or len(r['tx']) != 1:
+            res.violation(f'C06: the correct answer behind {m} checksum-failed frame(s), with {m} further receive calls fitting into the period, was not returned after one send',
+                          {'property': 'C06', 'input': desc, 'implementation_says': res_[:600]}, 'C06|markers-ahead')
+        out.append(Case('request-markers-ahead', S.model_cmd(sc, sk), proj(res_), desc, domain=False, kind=f'markers-ahead/{backend}', proj=proj))
+    return out
+
+
 def busy_line_cases(res, seed, n):
     """A busy serial line: 9..12 KiB of other traffic (sentences, other UBX frames; one byte per read) arrive before the
     correct and timely answer to the first transmission. Compared with the line model; oracle: answer after one send."""
@@ -105,10 +146,13 @@ def check(tier, seed):
         C.tie_b_request(res, wd)
         a0_ = list(res.assumption_lines)
         C.props_obligations(res, 'C06b', wd)
-        res.assumption_lines = a0_ + res.assumption_lines
+        a0_ += list(res.assumption_lines)
+        C.props_obligations(res, 'C06c', wd)
+        res.assumption_lines = a0_ + list(res.assumption_lines)
         cases = RC.run_suite(res, 'C06', tier, seed, 400, 15000, n_req=[1, 1, 1, 2, 3], force='good', oracle=oracle, late_every=10, history_every=6)
         gpsd_leftover_case(res)
         cases += busy_line_cases(res, seed, 2 if tier == 'quick' else 12)
+        cases += markers_ahead_cases(res, seed, 16 if tier == 'quick' else 400)
         res.compare(cases)
         res.notes['answered'] = sum(1 for c in cases if 'ret=Ubx' in c.impl)
         res.oblige('correspondence request loop: answer and sends (Tie A)', not res.disagreements)
